@@ -15,6 +15,12 @@
                      (architecture, block and package-body declarative parts; x occurs nowhere in the program and is
                      not a predefined literal; the variant that mentions `true` needs `true` not to be redeclared)
 
+      RAddLocal s x k y  at the head of the declarative part of the block labelled at s: an unused enumeration type x
+                     one of whose literals is the existing identifier y (k = 0), an unused integer type x (k = 1), an
+                     unused function (k = 2) / procedure named like the existing subprogram y with a profile of its own;
+                     such a declaration OVERLOADS a designator of an enclosing region (the integer type through its
+                     implicit operators), so whether the program stays valid is decided by re-running the reference
+
    R2, R3 (RSelected) and R4 are phrase replacements (Mini/Walk.v): `applicable` = the new phrase is accepted by the
    reference in the environment recorded for the ORIGINAL phrase (+ label freshness for R4); that the whole
    program stays valid is the theorem.  R1 and R5 have purely syntactic side conditions.  RUseItems is validated by
@@ -31,7 +37,8 @@ Inductive rewrite :=
 | RSelected (s : nid) (x : nid)
 | RUseItems (s : nid)
 | RWrap (s : nid) (lbl : ident)
-| RAddDecl (s : nid) (x : ident) (k : N).
+| RAddDecl (s : nid) (x : ident) (k : N)
+| RAddLocal (s : nid) (x : ident) (k : N) (y : ident).
 
 (* ------------------------------------------------------------------------------------------ *)
 (* identifiers of a phrase                                                                      *)
@@ -322,6 +329,46 @@ Definition add_sites (p : program) : list nid :=
     | _ => []
     end) (l_units l)) p.
 
+(* R5': a local declaration that overloads a designator of an enclosing region, at the head of a block *)
+Definition local_decl (m : nid) (x : ident) (k : N) (y : ident) : decl :=
+  if k =? 0 then DType (Occ m x) (TDEnum [Occ (m + 1) y; Occ (m + 2) (x + 1)])
+  else if k =? 1 then DType (Occ m x) (TDInt 0 7)
+  else if k =? 2 then
+    DFunBody (Occ m y) [Param (Occ (m + 1) x) KConst MIn TMBit] TMBit []
+             (SCons (SRet (m + 2) (Some (ENam (NId (Occ (m + 3) x))))) SNil)
+  else DProcBody (Occ m y) [Param (Occ (m + 1) x) KConst MIn TMBit] [] (SCons (SNull (m + 2)) SNil).
+Fixpoint local_conc (s m : nid) (x : ident) (k : N) (y : ident) (c : conc) : conc :=
+  match c with
+  | CBlock l ds b =>
+      if o_nid l =? s then CBlock l (local_decl m x k y :: ds) b
+      else CBlock l ds (local_concs s m x k y b)
+  | _ => c
+  end
+with local_concs (s m : nid) (x : ident) (k : N) (y : ident) (c : concs) : concs :=
+  match c with CNil => CNil | CCons z r => CCons (local_conc s m x k y z) (local_concs s m x k y r) end.
+Definition local_ubody (s m : nid) (x : ident) (k : N) (y : ident) (u : ubody) : ubody :=
+  match u with UArch o e ds b => UArch o e ds (local_concs s m x k y b) | _ => u end.
+Fixpoint block_ids_conc (c : conc) : list nid :=
+  match c with CBlock l _ b => o_nid l :: block_ids_concs b | _ => [] end
+with block_ids_concs (c : concs) : list nid :=
+  match c with CNil => [] | CCons z r => block_ids_conc z ++ block_ids_concs r end.
+(* identifiers of enumeration literals declared anywhere in the program (candidates for the re-used literal) *)
+Definition decl_lit_idents (ds : list decl) : list ident :=
+  flat_map (fun d => match d with DType _ (TDEnum lits) => map o_id lits | _ => [] end) ds.
+Fixpoint conc_lit_idents (c : conc) : list ident :=
+  match c with CBlock _ ds b => decl_lit_idents ds ++ concs_lit_idents b | _ => [] end
+with concs_lit_idents (c : concs) : list ident :=
+  match c with CNil => [] | CCons z r => conc_lit_idents z ++ concs_lit_idents r end.
+Definition lit_idents (p : program) : list ident :=
+  flat_map (fun l => flat_map (fun u =>
+    match u_body u with
+    | UPkg _ ds | UBody _ ds => decl_lit_idents ds
+    | UArch _ _ ds b => decl_lit_idents ds ++ concs_lit_idents b
+    | _ => []
+    end) (l_units l)) p.
+Definition block_ids (p : program) : list nid :=
+  flat_map (fun l => flat_map (fun u => match u_body u with UArch _ _ _ b => block_ids_concs b | _ => [] end) (l_units l)) p.
+
 (* ------------------------------------------------------------------------------------------ *)
 (* apply / applicable                                                                           *)
 (* ------------------------------------------------------------------------------------------ *)
@@ -369,6 +416,7 @@ Definition apply_rewrite (r : rewrite) (p : program) : program :=
   | RSwap s => map_units (fun u => DUnit (u_ctx u) (swap_ubody s (u_body u))) p
   | RUseItems s => map_units (fun u => DUnit (use_items_ctx p s m (u_ctx u)) (u_body u)) p
   | RAddDecl s x k => map_units (fun u => DUnit (u_ctx u) (add_ubody s m x k (u_body u))) p
+  | RAddLocal s x k y => map_units (fun u => DUnit (u_ctx u) (local_ubody s m x k y (u_body u))) p
   | _ => match rewrite_phrase r p with
          | Some (s, ph) => sub_phrase s (fun _ => ph) p
          | None => p
@@ -387,6 +435,9 @@ Definition applicable (r : rewrite) (p : program) : bool :=
       negb (memb x (idents_program p)) && negb (x =? id_undeclared) && memb s (add_sites p) &&
       (* the new name is not a predefined literal, and `true` (used by the boolean variant) has its predefined meaning *)
       (negb (x =? id_true) && negb (x =? id_false) && ((k =? 0) || (k =? 2) || never_declared_b id_true p))
+  | RAddLocal s x k y =>
+      negb (memb x (idents_program p)) && negb (memb (x + 1) (idents_program p)) && negb (x =? id_undeclared) &&
+      memb s (block_ids p) && valid_b (apply_rewrite r p)
   | _ => match rewrite_phrase r p with Some _ => true | None => false end
   end.
 
